@@ -863,25 +863,13 @@ Qed.
 
 End Fix.
 
-(* the code as it is (repairs D73 and D77 landed): the guards names_resolve and no_overlap are not needed *)
+(* the code as it is (repairs D73, D77, D87, D88 landed): the only guard left is `pattern not too long` *)
 Theorem run_columns_spec_asis : forall t L U f reqs, f <> ListFormOld ->
   wfb t = true -> reqs_resolvable t reqs = true -> all_found t reqs = true -> reqs <> [] ->
-  (f = DictForm -> no_pop_in_wildcard t U reqs = true) ->
   covers L U (requested t f reqs) = true ->
   run_columns t L f reqs = Ok (map (col_of L) (spec_columns t U f reqs)).
 Proof.
-  intros t L U f reqs NF W R A NE G C. apply (run_columns_spec asis); try assumption.
-  intro E. split; [intro X; discriminate X | auto].
-Qed.
-
-(* the code with the two further proposed repairs (pattern ending at a circuit, population inside a wildcard key):
-   only the guard `pattern not too long` and the layout hypothesis remain *)
-Theorem run_columns_spec_allfixes : forall t L U f reqs, f <> ListFormOld ->
-  wfb t = true -> reqs_resolvable_gen allfixes t reqs = true -> all_found t reqs = true -> reqs <> [] ->
-  covers L U (requested t f reqs) = true ->
-  run_columns_gen allfixes t L f reqs = Ok (map (col_of L) (spec_columns t U f reqs)).
-Proof.
-  intros t L U f reqs NF W R A NE C. apply (run_columns_spec allfixes); try assumption.
+  intros t L U f reqs NF W R A NE C. apply (run_columns_spec asis); try assumption.
   intro E. split; intro X; discriminate X.
 Qed.
 
@@ -924,9 +912,11 @@ Lemma refuted_too_long : wfb flat3 = true /\
   not_too_long flat3 ["B"; "zzz"] = false.
 Proof. vm_compute. repeat split. Qed.
 
-Lemma refuted_too_short :
-  get_nodes two_branches None ["a"] = Ok [["a"]] /\ get_nodes two_branches (Some ox) ["a"] = Err IndexError /\
-  path_denotation two_branches None ["a"] = [] /\ not_too_short two_branches ["a"] = false.
+(* a pattern ending at a sub-circuit (repaired, D87): before the fix the circuit name / IndexError, now nothing *)
+Lemma too_short_before_fix :
+  get_nodes_gen nofix two_branches None ["a"] = Ok [["a"]] /\ get_nodes_gen nofix two_branches (Some ox) ["a"] = Err IndexError /\
+  get_nodes two_branches None ["a"] = Ok [] /\ get_nodes two_branches (Some ox) ["a"] = Ok [] /\
+  path_denotation two_branches None ["a"] = [] /\ not_too_short two_branches ["a"] = false /\ resolvable two_branches ["a"] = true.
 Proof. vm_compute. repeat split. Qed.
 
 Lemma full_statement_refuted : ~ full_statement.
@@ -1002,17 +992,19 @@ Lemma population_columns :
 Proof. vm_compute. repeat split. Qed.
 
 (* a population among the variables of a dict-form wildcard key: ValueError (2-D array among 1-D ones) *)
-Lemma population_in_wildcard_refuted :
-  run_columns pop_tree L_pop DictForm [("w", (["all"], ox))] = Err ValueError /\
+Lemma population_in_wildcard_before_fix :
+  run_columns_gen nofix pop_tree L_pop DictForm [("w", (["all"], ox))] = Err ValueError /\
   List.length (spec_columns pop_tree U_pop DictForm [("w", (["all"], ox))]) = 5 /\
-  no_pop_in_wildcard pop_tree U_pop [("w", (["all"], ox))] = false.
+  no_pop_in_wildcard pop_tree U_pop [("w", (["all"], ox))] = false /\
+  run_columns pop_tree L_pop DictForm [("w", (["all"], ox))] =
+    Ok [(["w"; "A"; "op/x"], ("x", 0)); (["w"; "B"; "op/x"], ("x", 1)); (["w"; "P"; "op/x"; "0"], ("x_v1", 0));
+        (["w"; "P"; "op/x"; "1"], ("x_v1", 1)); (["w"; "P"; "op/x"; "2"], ("x_v1", 2))].
 Proof. vm_compute. repeat split. Qed.
 
 (* non-vacuity of run_columns_spec: all its hypotheses hold on a request with a population, a wildcard and a plain key *)
 Lemma run_returns_nonvacuous :
   let reqs := [("p", (["P"], ox)); ("a", (["B"], ox))] in
   wfb pop_tree = true /\ reqs_resolvable pop_tree reqs = true /\ all_found pop_tree reqs = true /\
-  no_overlap pop_tree reqs = true /\ no_pop_in_wildcard pop_tree U_pop reqs = true /\
   covers L_pop U_pop (requested pop_tree DictForm reqs) = true.
 Proof. vm_compute. repeat split. Qed.
 
